@@ -14,10 +14,12 @@ structure OpPres (f : OpRec → OpRec) : Prop where
   h : ∀ r, (f r).h = r.h
   st : ∀ r, (f r).st = .pending → r.st = .pending
   failed : ∀ r e, (f r).st = .failed e → r.st = .failed e
+  keep : ∀ r, r.st ≠ .pending → (f r).st = r.st
 
 def OpsMap (s s' : AState) : Prop := ∃ f, s'.ops = s.ops.map f ∧ OpPres f
 
-theorem OpPres.id : OpPres (fun r => r) := ⟨fun _ => rfl, fun _ => rfl, fun _ => rfl, fun _ h => h, fun _ _ h => h⟩
+theorem OpPres.id : OpPres (fun r => r) :=
+  ⟨fun _ => rfl, fun _ => rfl, fun _ => rfl, fun _ h => h, fun _ _ h => h, fun _ _ => rfl⟩
 
 theorem OpsMap.of_eq {s s' : AState} (h : s'.ops = s.ops) : OpsMap s s' :=
   ⟨fun r => r, by simp [h], OpPres.id⟩
@@ -28,7 +30,11 @@ theorem OpsMap.trans {s s' s'' : AState} (h1 : OpsMap s s') (h2 : OpsMap s' s'')
   refine ⟨g ∘ f, by simp [hg, hf], ?_⟩
   exact ⟨fun r => by simp [pg.o, pf.o], fun r => by simp [pg.kind, pf.kind],
          fun r => by simp [pg.h, pf.h], fun r h => pf.st r (pg.st (f r) h),
-         fun r e h => pf.failed r e (pg.failed (f r) e h)⟩
+         fun r e h => pf.failed r e (pg.failed (f r) e h),
+         fun r h => by
+           have h1 := pf.keep r h
+           have h2 := pg.keep (f r) (by rw [h1]; exact h)
+           simp [h2, h1]⟩
 
 @[simp] theorem addOp_ops (s : AState) (o h k st) :
     (s.addOp o h k st).ops = s.ops ++ [{ o, h, kind := k, st }] := rfl
